@@ -399,6 +399,10 @@ func loadReplay(t *testing.T) *ReplayFile {
 	if err := json.Unmarshal(b, &rf); err != nil {
 		t.Fatalf("bad replay file: %v", err)
 	}
+	if rf.Tier != "" {
+		// scenarios that narrow their configuration space per tier read VERIF_TIER
+		os.Setenv("VERIF_TIER", rf.Tier)
+	}
 	return &rf
 }
 
